@@ -1,6 +1,7 @@
 import GapicModel.Model.Routing
 import GapicModel.Lemmas.Regex
 import GapicModel.Pinned.CharClass
+import GapicModel.Pinned.Funcs
 /-
 C06 — every call carries an x-goog-request-params header that follows AIP-4222.
 Property theorems about `Model/Routing.lean` (helper lemmas specific to them in `section Aux`).
@@ -1770,5 +1771,86 @@ theorem dstar_not_last_counterexample :
 theorem many_named_rejected :
     ofSegs [.named ['a'] [.star], .tok (.lit ['x']), .named ['b'] [.star]] = .error (.manyNamed 2) := by
   rfl
+
+/-! ## Link to the functions translated from /repo's source (harness/pyfun2lean.py) -/
+
+section Translated
+open GapicModel.PyRt
+
+theorem splitAux_splitDotsAux : ∀ (s cur : List Char),
+    splitAux ['.'] 0 cur s = (cur.reverse ++ (splitDotsAux s).1) :: (splitDotsAux s).2 := by
+  intro s
+  induction s with
+  | nil => intro cur; simp [splitAux, splitDotsAux]
+  | cons d ds ih =>
+    intro cur
+    by_cases hd : d = '.'
+    · subst hd
+      simp only [splitAux, List.isPrefixOf, beq_self_eq_true, Bool.true_and, if_true, List.length_singleton,
+        Nat.sub_self, splitDotsAux]
+      rw [ih []]
+      simp
+    · have hne : ('.' == d) = false := by simp [beq_eq_false_iff_ne]; exact fun e => hd e.symm
+      simp only [splitAux, List.isPrefixOf, hne, Bool.false_and, Bool.false_eq_true, if_false, splitDotsAux, hd]
+      rw [ih (d :: cur)]
+      simp
+
+/-- the model's `str.split(".")` is the translator run-time library's -/
+theorem splitDots_is_split (s : List Char) : splitDots s = split s ['.'] := by
+  unfold split splitDots
+  rw [splitAux_splitDotsAux s []]
+  simp
+
+/-- the model's `".".join` is the translator run-time library's -/
+theorem joinDots_is_join (xs : List (List Char)) : joinDots xs = join ['.'] xs := by
+  induction xs with
+  | nil => rfl
+  | cons a r ih =>
+    cases r with
+    | nil => rfl
+    | cons b r' => simp only [joinDots, join, ih]; simp
+
+theorem reserved_contains_strIn (seg : List Char) :
+    Pinned.reservedNames.contains (String.ofList seg) = strIn seg (Pinned.reservedNames.map String.toList) := by
+  generalize Pinned.reservedNames = tbl
+  induction tbl with
+  | nil => simp [strIn]
+  | cons a t ih =>
+    simp only [strIn, List.map_cons, List.contains_cons] at ih ⊢
+    rw [ih]
+    congr 1
+    rw [Bool.eq_iff_iff]
+    simp only [beq_iff_eq]
+    constructor
+    · intro h; rw [← h]; simp
+    · intro h; rw [h]; simp
+
+theorem suffixSeg_is_translated (seg : List Char) :
+    suffixSeg seg = (if strIn seg (Pinned.reservedNames.map String.toList) then seg ++ ['_'] else seg) := by
+  unfold suffixSeg
+  rw [reserved_contains_strIn]
+
+/-- `disambiguated` IS the code's current `FieldHeader.disambiguated`
+    (translated from gapic/schema/wrappers.py on every run; bridge lemma `Bridge.Funcs`) -/
+theorem disambiguated_is_field_header (raw : List Char) :
+    disambiguated raw = Pinned.Funcs.field_header_disambiguated raw := by
+  unfold disambiguated Pinned.Funcs.field_header_disambiguated
+  rw [joinDots_is_join, splitDots_is_split]
+  congr 1
+  apply List.map_congr_left
+  intro seg _
+  exact suffixSeg_is_translated seg
+
+/-- … and the code's current `RoutingParameter.disambiguated_field` -/
+theorem disambiguated_is_routing_param_field (field : List Char) :
+    disambiguated field = Pinned.Funcs.routing_param_disambiguated_field field := by
+  unfold disambiguated Pinned.Funcs.routing_param_disambiguated_field
+  rw [joinDots_is_join, splitDots_is_split]
+  congr 1
+  apply List.map_congr_left
+  intro seg _
+  exact suffixSeg_is_translated seg
+
+end Translated
 
 end GapicModel.Props.C06
